@@ -17,6 +17,8 @@ TOP_FILE = "TaskBasedRadiationHydrodynamicsSimulation.cpp"
 TOP_CLASS = "TaskBasedRadiationHydrodynamicsSimulation"
 WRITER_NAMES = ("write_restart_file", "write_restart_info")
 READER_METHODS = ("restart", "read_restart_info")
+# legacy (non task-based) classes: not on the inventoried path, fetched only if something reaches them
+SKIP_PREFETCH = ("DensityGrid", "CartesianDensityGrid", "StatisticsLogger", "DensityGridFactory", "RestartManager", "iterator")
 WRAP = ("ImplicitCastExpr", "ParenExpr", "ExprWithCleanups", "CXXFunctionalCastExpr", "CStyleCastExpr", "CXXStaticCastExpr",
         "MaterializeTemporaryExpr", "CXXBindTemporaryExpr", "ConstantExpr", "CXXReinterpretCastExpr")
 
@@ -98,6 +100,9 @@ class Extractor:
         e = strip(e)
         if e.get("kind") == "MemberExpr" and children(e):
             b = strip(children(e)[0])
+            # members of anonymous unions / structs are reached through unnamed MemberExprs
+            while b.get("kind") == "MemberExpr" and not b.get("name") and children(b):
+                b = strip(children(b)[0])
             if b.get("kind") == "CXXThisExpr":
                 return e.get("name")
         return None
@@ -203,8 +208,10 @@ class Extractor:
             return self.assign(ch[0], ch[1])
         if k == "CXXOperatorCallExpr" and len(ch) == 3 and strip(ch[0]).get("kind") == "DeclRefExpr" and strip(ch[0]).get("referencedDecl", {}).get("name") == "operator=":
             return self.assign(ch[1], ch[2])
-        if k == "DeclRefExpr" and is_stream_type(qt(e, False)):
-            return [("unknown", "stream used: " + rng_text(e, self.path), "")]
+        if k in ("CallExpr", "CXXMemberCallExpr", "CXXOperatorCallExpr", "CXXConstructExpr", "CXXTemporaryObjectExpr") and any(is_stream(a) for a in ch[1:] if k != "CXXConstructExpr") :
+            return [("unknown", "stream passed to: " + rng_text(e, self.path)[:120], "")]
+        if k == "CXXMemberCallExpr" and ch and strip(ch[0]).get("kind") == "MemberExpr" and children(strip(ch[0])) and is_stream(children(strip(ch[0]))[0]):
+            return [("unknown", "stream method: " + rng_text(e, self.path)[:120], "")]
         out = []
         for c in ch:
             out += self.expr(c, target)
@@ -360,6 +367,29 @@ class Inventory:
             self.asts[filt] = LX.clang_ast(self.repo, self.build, self.tu, filt, self.cache)
         return self.asts[filt]
 
+    def prefetch(self, jobs=16):
+        """one clang run per class name that may be needed (headers with restart support), in parallel"""
+        from concurrent.futures import ThreadPoolExecutor
+        names = {"do_simulation"}
+        for f in sorted(os.listdir(self.src)):
+            if not f.endswith(".hpp"):
+                continue
+            txt = open(os.path.join(self.src, f), errors="replace").read()
+            if re.search(r"write_restart_file\s*\(\s*RestartWriter|write_restart_info\s*\(\s*RestartWriter", txt):
+                for n in re.findall(r"^\s*(?:template\s*<[^>]*>\s*)?class\s+(\w+)\s*(?::[^;{]*)?\{", txt, re.M):
+                    names.add(n)
+        names -= set(SKIP_PREFETCH)
+
+        def job(n):
+            try:
+                return n, LX.clang_ast(self.repo, self.build, self.tu, n, self.cache)
+            except Exception as e:
+                return n, None
+        with ThreadPoolExecutor(max_workers=jobs) as ex:
+            for n, objs in ex.map(job, sorted(names)):
+                if objs is not None:
+                    self.asts[n] = objs
+
     def file_of(self, decl, default):
         loc = decl.get("loc", {})
         for l in (loc, loc.get("expansionLoc", {}), decl.get("range", {}).get("begin", {})):
@@ -468,7 +498,7 @@ class Inventory:
             toks += ex.stmts([x for x in children(rd) if x.get("kind") == "CompoundStmt"][0])
             info["reader"] = toks
             info["restored"] = ex.restored
-            info["set_exprs"] = ex.set_exprs
+            info["set_exprs"] = {k2: [x for x in v if x != base] for k2, v in ex.set_exprs.items()}
             # the normal constructors' expressions for the members the reader sets without the stream
             others = [m for m in methods if m.get("kind") == "CXXConstructorDecl" and m is not rd and not any("RestartReader" in t for t in parm_types(m))]
             for m in others:
@@ -482,6 +512,7 @@ class Inventory:
                 ex2.stmts([x for x in children(m) if x.get("kind") == "CompoundStmt"][0])
                 for k2, v in ex2.set_exprs.items():
                     info["ctor_exprs"].setdefault(k2, []).extend(v)
+            info["ctor_exprs"] = {k2: [x for x in v if x != base] for k2, v in info["ctor_exprs"].items()}
         return key
 
     # ---- closure over nested components + dispatch resolution ----------------
@@ -553,6 +584,7 @@ def typeid_chain(toks):
 
 def extract(repo, build, cache):
     inv = Inventory(repo, build, cache)
+    inv.prefetch()
     path = os.path.join(inv.src, TOP_FILE)
     objs = inv.ast("do_simulation")
     fn = None
@@ -617,19 +649,13 @@ def extract(repo, build, cache):
             elif t[0] == "loop":
                 out.append(("loop", fix_side(t[1], side)))
             elif t[0] == "if":
-                out.append(("if", t[1], fix_side(t[2], side), fix_side(t[3], side)))
+                ch = typeid_chain([t]) if side == "reader" else None
+                if ch:
+                    out.append(("dispatch?", ch, ""))
+                else:
+                    out.append(("if", t[1], fix_side(t[2], side), fix_side(t[3], side)))
             else:
                 out.append(t)
-        # reader: typeid chain
-        if side == "reader":
-            res = []
-            for t in out:
-                ch = typeid_chain([t]) if t[0] == "if" else None
-                if ch:
-                    res.append(("dispatch?", ch, ""))
-                else:
-                    res.append(t)
-            out = res
         return out
 
     # iterate to a fixed point: dispatch discovery may load new classes
@@ -737,6 +763,180 @@ def show(toks, ind=0):
         else:
             out.append(" " * ind + "%s %s -> %s" % (t[0].upper(), t[1], t[2]))
     return out
+
+
+def norm_ws(t):
+    return re.sub(r"\s+", "", t or "")
+
+
+def prim_types(r):
+    ts = set()
+    lists = [r["top_writer"], r["top_reader"]]
+    for c in r["classes"].values():
+        lists += [c["writer"] or [], c["reader"] or []]
+    for l in lists:
+        for t in _walk(l):
+            if t[0] == "prim":
+                ts.add(t[1])
+    return sorted(ts)
+
+
+def probe_source(types):
+    """C++ program printing sizeof and the codec category of every primitive type the restart code writes / reads"""
+    out = ["#include <cstdio>", "#include <cstdint>", "#include <string>", "#include <map>", "#include <ios>", "#include <type_traits>", "#include <sys/time.h>",
+           "#include \"Timer.hpp\"", "#include \"RestartWriter.hpp\"", "#include \"RestartReader.hpp\"",
+           "template <typename T> const char *kind() {",
+           "  return std::is_same<T, bool>::value ? \"bool\" : std::is_integral<T>::value ? \"int\" : std::is_floating_point<T>::value ? \"float\" :",
+           "         std::is_same<T, std::string>::value ? \"string\" : std::is_same<T, std::map<std::string, std::string>>::value ? \"map\" : \"raw\"; }",
+           "template <typename T> void probe(const char *n) { printf(\"%s|%zu|%s|%d\\n\", n, sizeof(T), kind<T>(), (int)std::is_signed<T>::value); }",
+           "int main() {", "  probe<size_t>(\"size_t\");"]
+    for t in types:
+        out.append("  probe< %s >(\"%s\");" % (t, t))
+    out += ["  return 0;", "}"]
+    return "\n".join(out) + "\n"
+
+
+def parse_probe(text):
+    sizes = {}
+    for l in text.splitlines():
+        f = l.split("|")
+        if len(f) == 4:
+            sizes[f[0]] = (f[2], int(f[1]), int(f[3]))
+    return sizes
+
+
+def coq_str(t):
+    return '"' + t.replace('"', '""') + '"'
+
+
+def coq_ty(cxx, sizes):
+    if cxx not in sizes:
+        return None
+    kind, size, _ = sizes[cxx]
+    if kind == "bool":
+        return "TBool" if size == 1 else None
+    if kind == "int":
+        return "(TInt %d)" % size
+    if kind == "float":
+        return "TDouble" if size == 8 else None
+    if kind == "string":
+        return "TString"
+    if kind == "map":
+        return "TMap"
+    return "(TRaw %d)" % size
+
+
+def check_table(r, table):
+    """committed derived/transient table against the regenerated inventory -> (coq rows, problems, info)"""
+    rows, problems, info = [], [], []
+    for e in table.get("members", []):
+        c = r["classes"].get(e["class"])
+        if c is None or e["member"] not in [m for m, _ in c["members"]]:
+            info.append("table entry %s::%s: no such member in the inventory (stale entry)" % (e["class"], e["member"]))
+            continue
+        if e["member"] in c["written"] and e["member"] in c["restored"]:
+            info.append("table entry %s::%s is unused: the member is dumped and restored now" % (e["class"], e["member"]))
+            continue
+        if e["category"] == "transient":
+            rows.append((e["class"], e["member"], "CTransient"))
+            continue
+        same = bool(e.get("same_because"))
+        if "restart_expr" in e or "ctor_expr" in e:
+            rs = [norm_ws(x) for x in c["set_exprs"].get(e["member"], [])]
+            cs = [norm_ws(x) for x in c["ctor_exprs"].get(e["member"], [])]
+            if norm_ws(e.get("restart_expr")) not in rs:
+                problems.append("derived member %s::%s: the restart constructor no longer computes it as `%s` (now: %s) -- re-audit harness/c09/derived_transient.json"
+                                % (e["class"], e["member"], e.get("restart_expr"), c["set_exprs"].get(e["member"])))
+            if norm_ws(e.get("ctor_expr")) not in cs:
+                problems.append("derived member %s::%s: the normal constructor no longer computes it as `%s` (now: %s) -- re-audit harness/c09/derived_transient.json"
+                                % (e["class"], e["member"], e.get("ctor_expr"), c["ctor_exprs"].get(e["member"])))
+            same = same or norm_ws(e.get("restart_expr")) == norm_ws(e.get("ctor_expr"))
+        rows.append((e["class"], e["member"], "(CDerived %s)" % ("true" if same else "false")))
+    return rows, problems, info
+
+
+def emit_coq(r, sizes, table):
+    """-> (text of coq/Cxx/C09_Gen.v, meta)"""
+    conds = {}
+    pairs = {}
+    for pr in table.get("condition_pairs", []):
+        pairs[norm_ws(pr["reader"])] = norm_ws(pr["writer"])
+    cond_texts = []
+
+    def cond_id(text):
+        k = norm_ws(text)
+        k = pairs.get(k, k)
+        if k not in conds:
+            conds[k] = len(conds)
+            cond_texts.append(text)
+        return conds[k]
+    unknown_types = set()
+    sign_notes = []
+
+    def toks(l):
+        out = []
+        for t in l:
+            if t[0] == "prim":
+                ty = coq_ty(t[1], sizes)
+                if ty is None:
+                    unknown_types.add(t[1])
+                    out.append("KUnknown %s" % coq_str("type " + t[1]))
+                else:
+                    out.append("KPrim %s %s" % (ty, coq_str(t[2])))
+            elif t[0] == "call":
+                out.append("KCall %s %s" % (coq_str(t[1]), coq_str(t[2])))
+            elif t[0] == "dispatch":
+                out.append("KDispatch %s %s" % (coq_str(t[1]), coq_str(t[2])))
+            elif t[0] == "loop":
+                out.append("KLoop %s" % toks(t[1]))
+            elif t[0] == "if":
+                out.append("KIf %d %s %s" % (cond_id(t[1]), toks(t[2]), toks(t[3])))
+            else:
+                out.append("KUnknown %s" % coq_str(str(t[1])[:200]))
+        return "[" + "; ".join(out) + "]"
+    rows, problems, info = check_table(r, table)
+    lines = ["(* GENERATED by tools/restart_inventory.py from the clang AST of /repo -- do not edit *)",
+             "From Coq Require Import List String.", "From CMI Require Import Cxx.C09_Defs.", "Import ListNotations.", "Open Scope string_scope.", ""]
+    lines.append("(* sizeof on this platform (printed by a program compiled with the repository's compiler):")
+    for t in sorted(sizes):
+        lines.append("     %-60s %2d bytes  %s" % (t, sizes[t][1], sizes[t][0]))
+    lines.append("*)")
+    lines.append("Definition gen_size_t_width : nat := %d." % sizes.get("size_t", ("int", 8, 0))[1])
+    lines.append("")
+    names = []
+    emitted = []
+    for i, k in enumerate(sorted(r["classes"])):
+        c = r["classes"][k]
+        if c["reader"] is None and not c["writer"]:
+            continue       # abstract base with the 'not supported' stub
+        w = toks(c["writer"]) if c["writer"] is not None else '[KUnknown "no writer"]'
+        rd = toks(c["reader"]) if c["reader"] is not None else '[KUnknown "no reader"]'
+        mem = "[" + "; ".join("(%s, %s, %s)" % (coq_str(m), "true" if m in c["written"] else "false", "true" if m in c["restored"] else "false") for m, _ in c["members"]) + "]"
+        lines.append("(* %s : reader is a %s *)" % (k.replace("(*", "( *").replace("*)", "* )"), c["reader_kind"]))
+        lines.append("Definition class_%d : class_inv := mkClass %s\n  %s\n  %s\n  %s." % (i, coq_str(k), w, rd, mem))
+        names.append("class_%d" % i)
+        emitted.append(k)
+    lines.append("")
+    tw, tr = toks(r["top_writer"]), toks(r["top_reader"])
+    lines.append("(* conditions: " + " | ".join("%d = %s" % (i, t.replace("(*", "( *").replace("*)", "* )")) for i, t in enumerate(cond_texts)) + " *)")
+    disp = "[" + "; ".join("(%s, [%s], [%s])" % (coq_str(b), "; ".join(coq_str(x) for x in sorted(d.get("writer", []))), "; ".join(coq_str(x) for x in sorted(d.get("reader", []))))
+                            for b, d in sorted(r["dispatch"].items())) + "]"
+    tab = "[" + "; ".join("(%s, %s, %s)" % (coq_str(a), coq_str(b), c) for a, b, c in rows) + "]"
+    lines.append("Definition gen_inventory : inventory := mkInv\n  [%s]\n  %s\n  %s\n  %s\n  %s." % ("; ".join(names), tw, tr, disp, tab))
+    # same-width integer types of different signedness on the two sides (harmless for the bytes; reported as a note)
+    def flat(l):
+        return [t for t in _walk(l) if t[0] == "prim"]
+    pairs_l = [(r["top_writer"], r["top_reader"], "do_simulation")] + [(c["writer"] or [], c["reader"] or [], k) for k, c in r["classes"].items()]
+    for a, b, where in pairs_l:
+        fa, fb = flat(a), flat(b)
+        if len(fa) == len(fb):
+            for x, y in zip(fa, fb):
+                if x[1] != y[1] and coq_ty(x[1], sizes) == coq_ty(y[1], sizes):
+                    sign_notes.append("%s: `%s` is written as %s and read as %s (same width, other signedness)" % (where, x[2] or y[2], x[1], y[1]))
+    nmembers = sum(len(r["classes"][k]["members"]) for k in emitted)
+    meta = dict(classes=emitted, nclasses=len(emitted), nmembers=nmembers, table_rows=len(rows), problems=problems, info=info,
+                unknown_types=sorted(unknown_types), sign_notes=sign_notes, ndispatch=len(r["dispatch"]))
+    return "\n".join(lines) + "\n", meta
 
 
 if __name__ == "__main__":
